@@ -371,8 +371,10 @@ func c11Heavy(reps int) int {
 	for r := 0; r < reps; r++ {
 		loader := jet.NewInMemLoader()
 		loader.Set("/inc.jet", `[{{ .F0 }}{{ .F1 }}]`)
-		loader.Set("/heavy.jet", `{{ range z := none }}z{{ else }}-{{ end }}{{ range k, v := nomap }}z{{ else }}-{{ end }}{{ range i, x := xs }}{{ i }}{{ x }}{{ range _, y := ys }}{{ y }}{{ end }}{{ end }}|{{ range k, v := m }}{{ k }}{{ v }}{{ range k2, v2 := m }}{{ v2 }}{{ end }}{{ end }}|{{ include "inc" st }}|{{ st.F2 }}|{{ gg }}`)
+		loader.Set("/heavy.jet", `{{ isset(leak) }}{{ range z := none }}z{{ else }}-{{ end }}{{ range k, v := nomap }}z{{ else }}-{{ end }}{{ range i, x := xs }}{{ i }}{{ x }}{{ range _, y := ys }}{{ y }}{{ end }}{{ end }}|{{ range k, v := m }}{{ k }}{{ v }}{{ range k2, v2 := m }}{{ v2 }}{{ end }}{{ end }}|{{ include "inc" st }}|{{ st.F2 }}|{{ gg }}`)
 		loader.Set("/edit.jet", bodyA)
+		// fails inside a scope that is released by a plain statement, not by a defer, with a variable of its own
+		loader.Set("/failing.jet", `{{ range i, x := xs }}{{ if y := x; y }}{{ nosuchfunc() }}{{ end }}{{ end }}`)
 		set := jet.NewSet(loader, jet.InDevelopmentMode())
 		set.AddGlobal("gg", 7)
 		// a struct type no execution has seen yet
@@ -384,7 +386,21 @@ func c11Heavy(reps int) int {
 		for k := 0; k < 3; k++ {
 			st.Field(k).SetString(fmt.Sprintf("f%d", k))
 		}
-		want := "--0prs1qrs|k11|[f0f1]|f2|7"
+		want := "false--0prs1qrs|k11|[f0f1]|f2|7"
+		// a caching Set: pages without blocks of their own extend a cached layout and import a library that
+		// overrides the layout's block; parsing a page must not touch the layout other goroutines are executing
+		l2 := jet.NewInMemLoader()
+		l2.Set("/base.jet", `{{ block b() }}BASE{{ end }}|{{ yield b() }}`)
+		l2.Set("/theme.jet", `{{ block b() }}THEME{{ end }}`)
+		for g := 0; g < 4; g++ {
+			for k := 0; k < 3; k++ {
+				l2.Set(fmt.Sprintf("/page_%d_%d.jet", g, k), `{{ extends "base" }}{{ import "theme" }}`)
+			}
+		}
+		set2 := jet.NewSet(l2)
+		if _, err := set2.GetTemplate("base"); err != nil {
+			fail("base: %v", err)
+		}
 		var wg sync.WaitGroup
 		for g := 0; g < 4; g++ {
 			wg.Add(1)
@@ -396,6 +412,12 @@ func c11Heavy(reps int) int {
 					}
 				}()
 				for k := 0; k < 3; k++ {
+					// a failed execution (of this or another goroutine) leaves nothing behind in the pooled Runtime
+					if tf, err := set.GetTemplate("failing"); err == nil {
+						if tf.Execute(io.Discard, jet.VarMap{}.Set("xs", []string{"p"}).Set("leak", "LEAK"), nil) == nil {
+							fail("failing.jet did not fail")
+						}
+					}
 					t, err := set.GetTemplate("heavy")
 					if err != nil {
 						fail("GetTemplate: %v", err)
@@ -407,6 +429,20 @@ func c11Heavy(reps int) int {
 					var b bytes.Buffer
 					if err := t.Execute(&b, vars, nil); err != nil || b.String() != want {
 						fail("heavy rendered %q (err %v), alone it renders %q", b.String(), err, want)
+					}
+					if tp, err := set2.GetTemplate(fmt.Sprintf("page_%d_%d", g, k)); err != nil {
+						fail("GetTemplate(page): %v", err)
+					} else {
+						var pb bytes.Buffer
+						if err := tp.Execute(&pb, nil, nil); err != nil || pb.String() != "THEME|THEME" {
+							fail("page rendered %q (err %v), alone it renders THEME|THEME", pb.String(), err)
+						}
+					}
+					if tb, err := set2.GetTemplate("base"); err == nil {
+						var bb bytes.Buffer
+						if err := tb.Execute(&bb, nil, nil); err != nil || bb.String() != "BASE|BASE" {
+							fail("base rendered %q (err %v), alone it renders BASE|BASE", bb.String(), err)
+						}
 					}
 					switch g {
 					case 0:
